@@ -16,7 +16,7 @@
 #define SK_MAXOFD 96
 #define SK_MAXPROC 12
 #define SK_MAXLOG 4096
-#define SK_MAXSTR 65536
+#define SK_MAXSTR 262144
 #define SK_MAXFAULT 8
 #define SK_MAXALLOC 4096
 #define SK_INF (-1)
@@ -51,6 +51,7 @@ struct sk_obj {
   int bufoff;              /* offset of ring buffer in K->arena */
   int readers, writers;    /* number of OFDs (not fds) open for reading / writing */
   int pathid;              /* for OK_FILE: offset of path in K->str */
+  int abspath, fsflags;    /* for OK_FILE: the name resolved against the working directory at open time, and what the file system said of it */
   long total_w, total_r;
 };
 struct sk_ofd {
